@@ -225,6 +225,20 @@ impl Submessage {
       }
       SubmessageKind::INFO_REPLY => {
         let f = BitFlags::<INFOREPLY_Flags>::from_bits_truncate(sub_header.flags);
+        // The body starts with the length of the unicast locator list, and each
+        // Locator takes 24 bytes. Check the claimed length against the bytes
+        // we actually have, before the deserializer reserves memory for it.
+        let claimed_locators = u32::read_from_buffer_with_ctx(e, &sub_content_buffer)? as usize;
+        if claimed_locators.saturating_mul(24) > sub_content_buffer.len() {
+          return Err(io::Error::new(
+            io::ErrorKind::InvalidData,
+            format!(
+              "INFO_REPLY claims {claimed_locators} locators, but submessage body has only {} \
+               bytes.",
+              sub_content_buffer.len()
+            ),
+          ));
+        }
         mk_i_subm(InterpreterSubmessage::InfoReply(
           InfoReply::read_from_buffer_with_ctx(e, &sub_content_buffer)?,
           f,
